@@ -96,6 +96,15 @@ class Tracker:
     def entry_state(self, fn):
         return {}
 
+    def call_tag(self, ps, node):
+        """Return a tag (hashable) for the result of this call, or None.  When the
+        tagged result (directly, or after being stored in a tracked local) is later
+        refined by a branch, on_tag_refine is invoked on the refined state."""
+        return None
+
+    def on_tag_refine(self, ps, tag, val, state):
+        return state
+
     def track_deref(self, fn, var):
         """Whether *var (var a pointer parameter/local) is tracked as a term."""
         return False
@@ -470,7 +479,8 @@ class FunctionRun:
                 lv = self.live_in.get(sb)
                 if lv is not None:
                     dead = [k for k in ns if (k[0] == "L" and k[1] not in lv) or
-                            (k[0] == "C" and k not in lv)]
+                            (k[0] == "C" and k not in lv) or
+                            (k[0] == "T" and k[1][1] not in lv)]
                     if dead:
                         ns = dict(ns)
                         for k in dead:
@@ -528,7 +538,7 @@ class FunctionRun:
                 out[k] = a[k] | b[k]
             elif k[0] == "WB":
                 out[k] = a[k] | b[k]
-            elif k[0] == "C":
+            elif k[0] in ("C", "T"):
                 if a[k] == b[k]:
                     out[k] = a[k]
             else:
@@ -580,6 +590,7 @@ class FunctionRun:
                                     continue
                                 ns = dict(s2)
                                 self.refine(ns, ref, nv)
+                                ns = self.tag_refined(ns, ref, nv)
                                 outs.append((i, sc["b"], ns))
                             else:
                                 nv = v
@@ -638,6 +649,20 @@ class FunctionRun:
         if ref[0] == "k":
             self.setval(state, ref[1], newval)
 
+    def tag_refined(self, ns, ref, newval):
+        """Invoke the tracker's tag hook when a tagged call result is refined."""
+        if ref is None:
+            return ns
+        tag = None
+        if ref[0] == "t":
+            tag = ref[1]
+        elif ref[0] == "k":
+            tag = ns.get(("T", ref[1]))
+        if tag is None:
+            return ns
+        r = self.tr.on_tag_refine(self, tag, newval, ns)
+        return ns if r is None else r
+
     def setval(self, state, key, val):
         bm = self.tr.bitmask.get(key)
         if bm is not None and val is not TOP and val != BOT:
@@ -690,12 +715,12 @@ class FunctionRun:
                 ns = dict(s)
                 if ref is not None and ref[0] == "k":
                     self.setval(ns, ref[1], tv)
-                ts.append(ns)
+                ts.append(self.tag_refined(ns, ref, tv))
             if fv != BOT:
                 ns = dict(s)
                 if ref is not None and ref[0] == "k":
                     self.setval(ns, ref[1], fv)
-                fs.append(ns)
+                fs.append(self.tag_refined(ns, ref, fv))
         return ts, fs
 
     def branch_cmp(self, c, state):
@@ -760,12 +785,12 @@ class FunctionRun:
             ns = dict(s)
             if ref is not None and ref[0] == "k":
                 self.setval(ns, ref[1], tv)
-            ts.append(ns)
+            ts.append(self.tag_refined(ns, ref, tv))
         if fv != BOT:
             ns = dict(s)
             if ref is not None and ref[0] == "k":
                 self.setval(ns, ref[1], fv)
-            fs.append(ns)
+            fs.append(self.tag_refined(ns, ref, fv))
 
     # ------------------------------------------------------------ eval
     def cast_val(self, v, t):
@@ -831,6 +856,9 @@ class FunctionRun:
         if k == "cast":
             res = []
             t = e.get("t")
+            if e.get("ck") != "IntegralCast":
+                # lvalue-to-rvalue, decay, pointer and no-op casts do not change the value
+                return self.eval(e["e"], state, pure)
             for (s, v, ref) in self.eval(e["e"], state, pure):
                 nv = self.cast_val(v, t)
                 keep = ref
@@ -881,6 +909,9 @@ class FunctionRun:
                 if key is not None:
                     val = self.cast_val(val, v.get("t"))
                     self.setval(ns, key, val)
+                    ns.pop(("T", key), None)
+                    if r is not None and r[0] == "t":
+                        ns[("T", key)] = r[1]
                     if self.reporting:
                         self.tr.visit_store(self, self.cur_block, e, key, val, ns)
                     ns = self.tr.on_store(self, e, key, val, ns)
@@ -1074,7 +1105,16 @@ class FunctionRun:
         res = []
         for (s, rv, rref) in self.eval(e["r"], state):
             if op == "=":
-                res += self.store(e["l"], rv, s, e)
+                outs = self.store(e["l"], rv, s, e)
+                if rref is not None and rref[0] == "t":
+                    tagged = []
+                    for (ns, v2, r2) in outs:
+                        if r2 is not None and r2[0] == "k" and r2[1][0] == "L":
+                            ns = dict(ns)
+                            ns[("T", r2[1])] = rref[1]
+                        tagged.append((ns, v2, r2))
+                    outs = tagged
+                res += outs
             else:
                 key = self.key_of(e["l"])
                 if key is not None:
@@ -1116,6 +1156,7 @@ class FunctionRun:
                             t = l0.get("t")
                             v2 = self.cast_val(val, t)
                             self.setval(ns, key, v2)
+                            ns.pop(("T", key), None)
                             val = v2
                     else:
                         # element / sub-object of a tracked aggregate: weak update
@@ -1207,12 +1248,13 @@ class FunctionRun:
                 outs = ov
             else:
                 outs = self.apply_call(e, s, argvals)
+            tag = self.tr.call_tag(self, e)
             for (s2, v) in outs:
                 s2 = self.havoc_out_args(e, s2)
                 s3 = self.tr.after_call(self, e, s2, v)
                 if s3 is None:
                     continue
-                res.append((s3, v, None))
+                res.append((s3, v, ("t", tag) if tag is not None else None))
         return res
 
     def havoc_out_args(self, e, state):
